@@ -10,7 +10,8 @@ Decided (necessary structural conditions on the read / write paths of tensor.py 
           classes, and an unrecognised key is rejected rather than ignored
   SORTER  positions returned by np.searchsorted(.., sorter=s) are mapped back through s before they index the unsorted array
           (no such call on today's tree; positive fixture checked on every run)
-  GROW    growth pads with zeros: dense growth allocates np.zeros of the enlarged shape and copies the old block
+  GROW    growth pads with zeros: dense growth allocates np.zeros of the enlarged shape and copies the old block;
+          every completing path of the sparse writes passes through the extent update (must-pass-through)
 Cross-reference: that keys and right-hand sides are not modified is decided by C05 (AL-mut / AL-cap) and that a
 rejected assignment leaves the receiver unchanged by C19 (ES-order).
 Not decided: the history semantics itself (last writer wins, dense/sparse agreement over sequences of operations) —
@@ -84,6 +85,39 @@ def grow(prog: Program, res: Result) -> None:
             res.undecided("GROW", short, desc, prog.loc(fi))
 
 
+def grow_sparse(prog: Program, res: Result) -> None:
+    """The extent of a sparse tensor is explicit state: every write path that can complete recomputes it
+    (must-pass-through `self.shape = ...`), whatever values are written - a zero written beyond the extent grows it too."""
+    from ..paths import enumerate_paths
+    for short in ("sptensor.sptensor._set_subscripts", "sptensor.sptensor._set_subtensor"):
+        fi = prog.func(short)
+        desc = "every completing path of the sparse write recomputes the extent (writing beyond it grows the tensor, also for zeros)"
+        tot, bad, und = 0, None, None
+        for items, end in enumerate_paths(fi.node.body, limit=400000):
+            if end == "raise":
+                continue
+            tot += 1
+            if any(k == "stmt" and isinstance(st, ast.Assign) and ast.unparse(st.targets[0]) == "self.shape" for k, st in items):
+                continue
+            tests = [ast.unparse(st.test) for k, st in items if k in ("if-true", "if-false")]
+            last = [st for k, st in items if k in ("stmt", "return")]
+            node = last[-1] if last else fi.node
+            if any("self.shape" in t or "newshape" in t or "newsz" in t or "newsiz" in t for t in tests):
+                und = und or node     # skipped under a test about the extent itself: idiom not modelled
+            else:
+                bad = bad or (node, tests[-1] if tests else "")
+        if bad:
+            res.bad("GROW", short, desc, prog.loc(fi, bad[0]),
+                    f"a path ends at `{ast.unparse(bad[0])[:50]}` without updating self.shape, and no test on that path looks at the extent "
+                    f"(last decision: `{bad[1][:70]}`): a write beyond the current extent on this path leaves the shape unchanged")
+        elif und is not None:
+            res.undecided("GROW", short, desc, prog.loc(fi, und), "extent update skipped under a test that mentions the extent")
+        elif tot:
+            res.ok("GROW", short, desc, prog.loc(fi), f"{tot} completing paths, all pass through the extent update")
+        else:
+            res.undecided("GROW", short, desc, prog.loc(fi), "no completing path")
+
+
 def sorter_rule(prog: Program, res: Result, functions=None, tree=None) -> int:
     """np.searchsorted(a, v, sorter=s) answers positions in the SORTED order of a; used as positions in a itself they
     must be mapped back through s (s[np.searchsorted(...)])."""
@@ -124,13 +158,14 @@ def sorter_rule(prog: Program, res: Result, functions=None, tree=None) -> int:
 def check(prog: Program, res: Result, tier: str) -> None:
     res.explanation = __doc__.split("\n\n", 1)[1]
     res.assumptions = ["row-helper contracts; operands well-formed", "tt_ind2sub / tt_sub2ind numbering is decided by C17"]
-    res.floors = {"IX-dom": 12, "IX-kind": 3, "EO-1": 5, "DISPATCH": 4, "GROW": 2}
+    res.floors = {"IX-dom": 12, "IX-kind": 3, "EO-1": 5, "DISPATCH": 4, "GROW": 4}
     for f in SPARSE + DENSE + UTILS:
         prog.func(f)
     I.ix_rules(prog, res, lambda fi: fi.short in SPARSE + UTILS, ("IX-dom", "IX-seq", "IX-kind", "IX-pair"))
     E.eo1(prog, res, lambda fi: fi.short in SPARSE + DENSE + UTILS)
     dispatch(prog, res)
     grow(prog, res)
+    grow_sparse(prog, res)
     sorter_rule(prog, res)
     # expected count on the tree is zero: keep a positive fixture so that the rule cannot pass vacuously for ever
     from ..report import Result as _R
